@@ -65,9 +65,22 @@ Quants == {Q("nested", 0, "child", x) : x \in FDepth(QDepth)}
 Ctx(g) == {g, Not(g), And(<<Atom(1), g>>), Or(<<Atom(1), g>>), Or(<<g, Not(Atom(2))>>),
            Ite(Atom(1), g), Ite(g, Atom(1)), Itee(Atom(1), g, Atom(2)), Itee(g, Atom(1), Atom(2)),
            Not(Itee(Atom(2), g, Atom(1)))}
-QuantFormulas == UNION {Ctx(g) : g \in Quants}
+QuantFormulas == IF Mode = "quant" THEN UNION {Ctx(g) : g \in Quants} ELSE {}
 
-World == IF Mode = "prop" THEN PropWorld ELSE QuantWorld
+\* Mode "wide": conjunctions / disjunctions of four and five operands, each itself a two-operand
+\* connective over literals -- the shapes whose failure-DNF is a cross product of several multi-branch operands
+Lit(i, pos) == IF pos THEN Atom(i) ELSE Not(Atom(i))
+WideOps(inner) == {[k |-> inner, xs |-> <<Lit(1, TRUE), Lit(2, TRUE)>>], [k |-> inner, xs |-> <<Lit(2, TRUE), Lit(3, TRUE)>>],
+                   [k |-> inner, xs |-> <<Lit(1, FALSE), Lit(3, TRUE)>>], [k |-> inner, xs |-> <<Lit(1, TRUE), Lit(3, FALSE)>>],
+                   [k |-> inner, xs |-> <<Lit(2, FALSE), Lit(3, FALSE)>>], Lit(2, TRUE)}
+WideOf(outer, inner) ==
+  {[k |-> outer, xs |-> <<a, b, c, d>>] : a \in WideOps(inner), b \in WideOps(inner), c \in WideOps(inner), d \in WideOps(inner)}
+    \cup {[k |-> outer, xs |-> <<a, b, c, d, e>>] :
+             a \in WideOps(inner), b \in {[k |-> inner, xs |-> <<Lit(1, TRUE), Lit(2, TRUE)>>]}, c \in WideOps(inner),
+             d \in WideOps(inner), e \in {[k |-> inner, xs |-> <<Lit(2, FALSE), Lit(3, FALSE)>>], Lit(2, TRUE)}}
+WideFormulas == IF Mode = "wide" THEN WideOf("or", "and") \cup WideOf("and", "or") \cup {Not(g) : g \in WideOf("or", "and")} ELSE {}
+
+World == IF Mode = "quant" THEN QuantWorld ELSE PropWorld
 \* a cheap structural hash, only used to slice the scope
 KindCode(g) == CASE g.k = "atom" -> g.i [] g.k = "not" -> 3 [] g.k = "and" -> 5 [] g.k = "or" -> 7
                  [] g.k = "ite" -> 11 [] g.k = "itee" -> 13 [] g.k = "q" -> 17 + g.n
@@ -75,10 +88,11 @@ RECURSIVE Hash(_)
 Hash(g) == CASE g.k = "atom" -> g.i
              [] g.k = "not" -> 3 + 2 * Hash(g.x)
              [] g.k \in {"and", "or"} -> KindCode(g) + 3 * Hash(g.xs[1]) + 5 * Hash(g.xs[2])
+                                         + (IF Len(g.xs) > 2 THEN 7 * Hash(g.xs[3]) + 11 * Hash(g.xs[Len(g.xs)]) ELSE 0)
              [] g.k = "ite" -> 11 + 3 * Hash(g.c) + 7 * Hash(g.t)
              [] g.k = "itee" -> 13 + 3 * Hash(g.c) + 5 * Hash(g.t) + 11 * Hash(g.e)
              [] g.k = "q" -> KindCode(g) + 3 * Hash(g.x) + (IF g.q = "nested" THEN 1 ELSE IF g.q = "atLeast" THEN 2 ELSE 4)
-FullScope == IF Mode = "prop" THEN FDepth(Depth) ELSE QuantFormulas
+FullScope == CASE Mode = "prop" -> FDepth(Depth) [] Mode = "wide" -> WideFormulas [] OTHER -> QuantFormulas
 Scope == {g \in FullScope : Hash(g) % NParts = Part}
 
 VARIABLE f
@@ -90,7 +104,7 @@ Spelling == SpellingInvariant(f, World)
 Emit == PrintT("CASE " \o ToJson([ast |-> f, expect |-> {NodeName(n) : n \in Reported(f, World)}]))
 \* the world, in the shape the harness renders: name -> [val, kids]
 WorldJson ==
-  LET ns == IF Mode = "prop" THEN PropNodes ELSE Tops \cup AllKids IN
+  LET ns == IF Mode = "quant" THEN Tops \cup AllKids ELSE PropNodes IN
   [targets |-> {NodeName(n) : n \in World.targets},
    nodes   |-> {[name |-> NodeName(n), val |-> World.val[n],
                  kids |-> {NodeName(m) : m \in World.kids[n]["child"]}] : n \in ns}]
